@@ -1119,6 +1119,8 @@ func (fv *FV) applyRole(st *State, role string, f Term, args []Term, pos token.P
 		return []Term{fv.predTerm(f, args[0])}
 	case "eq":
 		return []Term{fv.eqfTerm(f, args[0], args[1])}
+	case "eqv":
+		return []Term{fv.eqvTerm(f, args[0], args[1])}
 	case "yield":
 		at := args[0]
 		kl, ka, kr := fv.callsComp("len", ""), fv.callsComp("arg", at.Sort), fv.callsComp("ret", "")
